@@ -304,8 +304,7 @@ def actuator_runs(ctx, pending):
         with contextlib.redirect_stderr(io.StringIO()), contextlib.redirect_stdout(io.StringIO()):
             act.run(False)
     except Exception as ex:  # noqa: BLE001
-        if "is not open" not in str(ex):
-            ctx.violate(f"squeeth.run.raises:{type(ex).__name__}", f"Actuator.run raised {type(ex).__name__}({str(ex)[:80]})", {"rows": rows})
+        ctx.violate(f"squeeth.run.raises:{type(ex).__name__}", f"Actuator.run raised {type(ex).__name__}({str(ex)[:80]})", {"rows": rows})
     finally:
         logging.disable(logging.NOTSET)
     for k, (state, env, envj, tw, to, cur, obs) in enumerate(seen):
